@@ -88,13 +88,13 @@ def assignUids : List Watcher → Nat → List Watcher
 /-- the daemon after `Arbiter.__init__` + `initialize()`: every configured watcher is in the
     list (configuration order) and in the dict (filled in `iter_watchers()` order; a later
     watcher with the same lower-cased name overwrites the earlier entry) -/
-def initState (cfg : List Watcher) (behavs : List Behav) (arbWarmup : Nat) : State :=
+def initState (cfg : List Watcher) (behavs : List Behav) (arbWarmup : Nat) (owner : Option String := none) : State :=
   let ws := assignUids cfg 1
   let sorted := sortWatchers ws true
   { k := { behavs := if behavs.isEmpty then [{}] else behavs },
     a := { watchers := ws.map (·.uid),
            names := sorted.foldl (fun acc w => acc.filter (·.1 ≠ pyLower w.name) ++ [(pyLower w.name, w.uid)]) [],
-           warmup := arbWarmup },
+           warmup := arbWarmup, endpointOwner := owner },
     ws := ws, nextId := cfg.length + 1 }
 
 def step (s : State) (op : Op) : State := (stepM op s).2
